@@ -651,6 +651,33 @@ def run(only=None):
                 hist.kept_results(s, f"{code}.{f.__name__}", [({"code": code, "message": m}, (lambda c=c, f=f: f(bitarray(c)))) for m, c in zip(km, cws)], obs=lambda r: r.to01())
         s.done()
 
+    if want("callers_buffer_overwritten_in_place"):
+        s = rep.sub("callers_buffer_overwritten_in_place",
+                    "per codec: the caller builds every message (and holds every received word) in ONE bitarray that it overwrites in place between "
+                    "calls -- 14 contents per entry point: one-bit changes, a field counted up, the first content again; encode (all accepted input "
+                    "lengths) and every extractor answer for the buffer's present content (expected values: the reference encoder; for the extractors the same call on a fresh object, taken first)")
+        for code, K_, enc_f, ref_f, ext_fs, wider in (
+            ("32_11", 11, lambda b: VBPTC3211.encode(b, True), lambda m: ref_encode32(m, True), (VBPTC3211.deinterleave_data_bits, VBPTC3211.deinterleave_all_bits), ()),
+            ("128_72", 72, VBPTC12873.encode, ref_encode128, (VBPTC12873.deinterleave_data_bits, VBPTC12873.deinterleave_all_bits, VBPTC12873.deinterleave_cs5_bits), (77,)),
+            ("68_28", 28, VBPTC6828.encode, ref_encode68, (VBPTC6828.deinterleave_data_bits, VBPTC6828.deinterleave_all_bits, VBPTC6828.deinterleave_crc8_bits), (36,)),
+        ):
+            base = env.det_bits(f"c09-reuse-{code}", K_)
+            ms = [base]
+            for pos in (0, K_ - 1, K_ // 2, 3):
+                ms.append(ms[-1][:pos] + ("1" if ms[-1][pos] == "0" else "0") + ms[-1][pos + 1:])
+            ms += [base[:K_ - 3] + format(i, "03b") for i in range(8)] + [base]
+            cws = [ref_f(m) for m in ms]
+            ents = [(f"{code}.encode", (lambda b, enc_f=enc_f: enc_f(b).to01()), [bitarray(m) for m in ms], cws)]
+            for f in ext_fs:
+                ents.append((f"{code}.{f.__name__}", (lambda b, f=f: f(b).to01()), [bitarray(c) for c in cws], None))
+            for n_ in wider:
+                # the encoders also accept the message followed by its checksum bits (replaced by the encoder)
+                ents.append((f"{code}.encode_{n_}_bits", (lambda b, enc_f=enc_f: enc_f(b).to01()), [bitarray(m + "0" * (n_ - K_)) for m in ms], None))
+            if code != "32_11":
+                ents.append((f"{code}.encode_codeword_length_input", (lambda b, enc_f=enc_f: enc_f(b).to01()), [bitarray(c) for c in cws], None))
+            hist.reused_buffer(s, code, ents)
+        s.done()
+
     if want("long_call_history"):
         s = rep.sub("long_call_history",
                     "encode / extract of one fixed message per codec called again and again in one process: the result never depends on how "
